@@ -32,6 +32,13 @@ M("C01", TAD, "Solver.value_iteration_reachability", "diff = max_diff", "diff = 
 M("C01", TAD, "Solver.value_iteration_reachability", "max_diff = 0\n", "pass\n", "C01.4", "maximum not reset per sweep")
 M("C01", TAD, "Solver.solve_reachability", "self.value_iteration_reachability(states_reaching_final, prune_states)", "self.value_iteration_reachability(states_reaching_final[1:], prune_states)", "C01.3", "sweep domain truncated")
 M("C01", TAD, "Solver.value_iteration_reachability", "state.reach_probability = reach_probability_next", "state.reach_probability = reach_probability_next if prune_states else state.reach_probability", "C01", "update depends on the prune flag")
+M("C01", TAD, "StochasticGame.solve", "probabilities = [state.reach_probability for state in state_list]", "probabilities = [round(state.reach_probability, 3) for state in state_list]", "C01.6", "reported probabilities rounded to 3 digits")
+M("C01", TAD, "Solver.value_iteration_reachability", "for state_idx in states_reaching_final:", "for state_idx in states_reaching_final[::2]:", "C01.4", "every second state swept")
+M("C01", TAD, "PlayerTwo.value_iteration_reach", "min_reach_prob = 1\n", "min_reach_prob = self.reach_probability\n", "C01.1", "minimum seeded with the state's own old value (stuck at 0)")
+T(["C01", "C06", "C04"], TAD, "Solver.value_iteration_reachability", "for state_idx in states_reaching_final:", "for state_idx in reversed(states_reaching_final):", "sweep order reversed")
+T(["C01", "C06"], TAD, "PlayerOne.value_iteration_reach", "max_reach_prob = 0\n", "max_reach_prob = self.reach_probability\n", "maximum seeded with the state's own old value (same limit)")
+T(["C01", "C02", "C14"], TAD, "StochasticGame.solve", "probabilities = [state.reach_probability for state in state_list]", "probabilities = []\n        for state in state_list:\n            probabilities.append(state.reach_probability)", "append loop instead of comprehension for a result slot")
+T(["C02", "C06", "C14"], TAD, "Solver.value_iteration_total_rewards", "for state in self.state_list:\n                expected_rewards_next", "for state in reversed(self.state_list):\n                expected_rewards_next", "reward sweep reversed")
 # ---- C02 -------------------------------------------------------------------------------------------------------------
 M("C02", TAD, "PlayerOne.value_iteration_rewards", "max_rewards += self.reward", "max_rewards += 0", "C02.2", "Player 1 drops its own reward")
 M("C02", TAD, "ProbabilisticNode.value_iteration_rewards", "return 0, 0, 0", "return self.reward, 0, 0", "C02.2", "pruned-away probabilistic state worth its reward")
@@ -120,6 +127,8 @@ M("C14", TAD, "PlayerTwo.value_iteration_rewards", "self.get_worst_strategies_re
 M("C14", TAD, "PlayerTwo._expected_rewards_min_reach", "if next_state_exp_rewards < min_rewards:", "if next_state_exp_rewards > min_rewards:", "C14.1", "max instead of min over restricted actions")
 M("C14", TAD, "Solver.value_iteration_reachability", "state.expected_reach_min_rewards = state.reach_probability", "state.expected_reach_min_rewards = state.expected_rewards", "C14.3", "seeding from expected rewards")
 M("C14", TAD, "PlayerOne.value_iteration_rewards", "state_list[max_next_state[NEXT_STATE_IDX]].expected_reach_min_rewards", "state_list[self.next_states[0][NEXT_STATE_IDX]].expected_reach_min_rewards", "C14.1", "auxiliary value from the first successor")
+M("C14", TAD, "StochasticGame.solve", "expected_reach_min_rewards = [state.expected_reach_min_rewards for state in state_list]", "expected_reach_min_rewards = [state.reach_probability for state in state_list]", "C14.5", "diagnostic slot reports plain reachability")
+M("C14", TAD, "StochasticGame.solve", "n_iterations_rew, expected_reach_min_rewards, expected_rewards_min_reach", "n_iterations_rew, expected_rewards_min_reach, expected_reach_min_rewards", "C14.5", "diagnostic slots swapped in the return")
 # ---- C15 -------------------------------------------------------------------------------------------------------------
 M("C15", GEN, "check_input", "if seed < 0:", "if seed <= 0:", "C15.1", "seed 0 refused")
 M("C15", GEN, "check_input", "if prob_tile_break <= 0 or prob_tile_break >= 1:", "if prob_tile_break < 0 or prob_tile_break >= 1:", "C15.1", "probability 0 accepted")
